@@ -199,13 +199,20 @@ class MaxSumFactorComputation(DcopComputation):
           * cost is the sum of the costs received from all other factors
             except f for this value d for the domain.
         """
+        # When this message completes the set of costs for the first time, no
+        # variable has received anything from us yet: the sender must get its
+        # costs too (they depend on the costs received earlier from the others).
+        first_complete = (
+            var_name not in self._costs
+            and len(self._costs) + 1 == len(self.factor.dimensions)
+        )
         self._costs[var_name] = msg.costs
 
         # Wait until we received costs from all our variables before sending
         # our own costs (if works without doing that, but results are worse)
         if len(self._costs) == len(self.factor.dimensions):
             for v in self.variables:
-                if v.name != var_name:
+                if v.name != var_name or first_complete:
                     costs_v = maxsum.factor_costs_for_var(
                         self.factor, v, self._costs, self.mode
                     )
